@@ -13,6 +13,17 @@ Definition un_comp (l : list wv) : option comp :=
   | _ => None
   end.
 
+Fixpoint un_rhss (l : list wv) : option (list rhs) :=
+  match l with
+  | [] => Some []
+  | WL [WI 0; WI y] :: r => match un_rhss r with Some rs => Some (RVar y :: rs) | None => None end
+  | WL [WI 1; WL items] :: r =>
+      match un_ints items, un_rhss r with Some it, Some rs => Some (RLit it :: rs) | _, _ => None end
+  | _ => None
+  end.
+
+(* (8 x y i) x.append(y[i])   (9 x y i) x.remove(y[i])   (10 (xs) (rhs..)) tuple assignment, rhs = (0 y) | (1 (items))
+   (11 x y) x = ident(y) *)
 (* (0 x (items))  (1 x (start stop step mul add))  (2 x y)  (3 x v)  (4 x v)  (5 x i)  (6 x i)  (7 x v) *)
 Definition un_sstmt (v : wv) : option sstmt :=
   match v with
@@ -24,6 +35,11 @@ Definition un_sstmt (v : wv) : option sstmt :=
   | WL [WI 5; WI x; WI i] => Some (SGet x i)
   | WL [WI 6; WI x; WI i] => Some (SCallGet x i)
   | WL [WI 7; WI x; WI a] => Some (SCallAppend x a)
+  | WL [WI 8; WI x; WI y; WI i] => Some (SAppendRef x y i)
+  | WL [WI 9; WI x; WI y; WI i] => Some (SRemoveRef x y i)
+  | WL [WI 10; WL xs; WL rs] =>
+      match un_ints xs, un_rhss rs with Some xl, Some rl => Some (STuple xl rl) | _, _ => None end
+  | WL [WI 11; WI x; WI y] => Some (SRet x y)
   | _ => None
   end.
 
